@@ -5,6 +5,7 @@
   clause that failed (tags are matched against known_findings.json).
 -/
 import MantraDex.Model.Pool
+import MantraDex.Spec.Ledger
 
 namespace MantraDex
 
@@ -92,5 +93,34 @@ def monWithdrawPos (amount : Nat) (ownerGot fcGot ownersGot fmOut : Int) (emerge
              (fmOut ≤ amount, "C09-split"), (0 ≤ ownerGot && 0 ≤ fcGot && 0 ≤ ownersGot, "C09-split"),
              (emergencyActive || (ownerGot == amount && fcGot == 0 && ownersGot == 0), "C08-withdraw-exact"),
              (!emergencyActive || amount ≤ ownerGot * 10 + ownersGot * 10, "C09-cap")]
+
+/-- one LP token's slice of a claim: entry epoch, user and total change points, and its farms as
+    (rate, start, end, reward denom, observed increase of `claimed_amount`) -/
+structure ClaimLp where
+  entry : Nat
+  uh : List (Nat × Nat)
+  th : List (Nat × Nat)
+  farms : List (Nat × Nat × Nat × String × Nat)
+
+/-- C06/C07: an accepted claim pays, per farm and per denom, exactly the ledger's entitlement for
+    the epochs it covers — never more (C06), never less (C07); `claimed_amount` moves by exactly what
+    is paid; the Rewards query taken just before equals the payout. -/
+def monClaim (until_ : Nat) (cursor : Option Nat) (lps : List ClaimLp)
+    (paid : List (String × Int × Int)) (quote : Option (List (String × Nat))) : Verdict :=
+  let perFarm := lps.flatMap fun l =>
+    l.farms.map fun (rate, start, end_, denom, cd) =>
+      (denom, Spec.spanReward ⟨rate, start, end_⟩ l.uh l.th (Spec.firstEpoch cursor l.entry) until_, cd)
+  let expectedOf (d : String) : Nat := ((perFarm.filter (·.1 == d)).map (·.2.1)).foldl (· + ·) 0
+  let c1 : List (Bool × String) := perFarm.map fun x => (decide (x.2.2 ≤ x.2.1), "C06-overpaid")
+  let c2 : List (Bool × String) := perFarm.map fun x => (decide (x.2.1 ≤ x.2.2), "C07-underpaid")
+  let c3 : List (Bool × String) := paid.flatMap fun x =>
+    [(decide (x.2.1 ≤ (expectedOf x.1 : Int)), "C06-overpaid"),
+     (decide ((expectedOf x.1 : Int) ≤ x.2.1), "C07-underpaid"),
+     (x.2.1 == x.2.2, "C05-claim-accounting")]
+  let c4 : List (Bool × String) := match quote with
+    | none => []
+    | some q => paid.map fun x =>
+        (((q.find? (·.1 == x.1)).map (·.2)).getD 0 == x.2.1.toNat, "C07-query-ne-claim")
+  firstFail (c1 ++ c2 ++ c3 ++ c4)
 
 end MantraDex
